@@ -19,7 +19,7 @@ ASSUMPTIONS = [
     "feasibility is judged on the actions up to the row's own finishing step; the post-finish padding is only "
     "required not to revisit customers",
 ]
-ENVS = ["tsp", "atsp", "cvrp", "sdvrp", "cvrptw", "svrp", "op", "pctsp", "spctsp", "pdp", "mtsp", "mtvrp"]
+ENVS = ["tsp", "atsp", "cvrp", "sdvrp", "cvrptw", "svrp", "op", "pctsp", "spctsp", "pdp", "mtsp", "mtvrp", "mdcpdp"]
 
 
 def execute(case, ctx):
